@@ -442,6 +442,53 @@ class MultiDictFormHandler(URLEncodedFormHandler):
         return self._lists(await super().deserialize_async(stream, content_type, content_length))
 
 
+def _charset_of(content_type):
+    for part in (content_type or '').split(';')[1:]:
+        name, _, value = part.strip().partition('=')
+        if name.lower() == 'charset':
+            return value.strip('"').lower()
+    return 'utf-8'
+
+
+class LengthAwareJSONHandler(falcon.media.BaseHandler):
+    """A custom handler that implements ONLY the sync interface and relies on the documented arguments:
+    content_length (emptiness test, exact read) and content_type (charset parameter)."""
+
+    def __init__(self, dumps=None, loads=None):
+        pass
+
+    def serialize(self, media, content_type):
+        return json.dumps(media, ensure_ascii=False).encode(_charset_of(content_type))
+
+    def deserialize(self, stream, content_type, content_length):
+        if not content_length:
+            raise falcon.MediaNotFoundError('JSON')
+        data = stream.read(content_length)
+        try:
+            return json.loads(data.decode(_charset_of(content_type)))
+        except (ValueError, RecursionError, LookupError) as ex:
+            raise falcon.MediaMalformedError('JSON') from ex
+
+
+class LengthAwareFormHandler(falcon.media.BaseHandler):
+    """Sync-only form handler relying on content_length."""
+
+    def __init__(self, keep_blank=True, csv=False):
+        pass
+
+    def serialize(self, media, content_type):
+        return M.ref_form_dump(media)
+
+    def deserialize(self, stream, content_type, content_length):
+        if not content_length:
+            return {}
+        data = stream.read(content_length)
+        try:
+            return falcon.uri.parse_query_string(data.decode('ascii'), keep_blank=True)
+        except ValueError as ex:
+            raise falcon.MediaMalformedError('URL-encoded') from ex
+
+
 class SubRequestW(falcon.Request):
     def c12_helper(self):
         return self.method
@@ -463,7 +510,8 @@ class SubResponseA(falcon.asgi.Response):
 
 
 CLASSES = {'stock': (JSONHandler, URLEncodedFormHandler), 'sub': (SubJSONHandler, SubFormHandler),
-           'override': (EnvelopeJSONHandler, MultiDictFormHandler)}
+           'override': (EnvelopeJSONHandler, MultiDictFormHandler),
+           'lengthaware': (LengthAwareJSONHandler, LengthAwareFormHandler)}
 TYPES = ('stock', 'sub')       # request_type / response_type of the app: framework classes or plain subclasses
 # documented options of URLEncodedFormHandler
 FORM_OPTS = {'default': {}, 'csv': {'csv': True}, 'noblank': {'keep_blank': False},
@@ -491,6 +539,14 @@ def all_cfgs():
 def override_cfgs():
     """Handlers whose overridden public methods change the wire format / the shape of the parsed form."""
     return [(d, 'default', 'override', t, 'default') for t in TYPES for d in ('default', 'bytes')]
+
+
+def lengthaware_cfgs():
+    """Custom sync-only handlers that use the content_length / content_type arguments."""
+    return [('default', 'default', 'lengthaware', t, 'default') for t in TYPES]
+
+
+UTF16 = JSON + '; charset=utf-16'
 
 
 def set_cfg(cfg):
@@ -623,6 +679,7 @@ def deserialize(stack, ct, body, history, propagate, chunks=None, with_cl=True, 
         CUR['hplan'] = fault['hplan']
     if 'stalls' in fault:
         CUR['stalls'] = list(fault['stalls'])
+    cl_header = fault.get('cl_header')
     flaky = None
     if 'io_fail_at' in fault:
         if stack == 'w':
@@ -634,9 +691,14 @@ def deserialize(stack, ct, body, history, propagate, chunks=None, with_cl=True, 
     problems = []
     if stack == 'w':
         # a body-less request may come without any Content-Length; a body is always framed by one
-        env = W.make_environ('POST', '/echo', headers=headers, body=body,
-                             content_length=None if (not body and not with_cl) else len(body), trailing=trailing,
-                             wsgi_input=flaky)
+        if cl_header is not None:
+            env = W.make_environ('POST', '/echo', headers=headers + [('Content-Length', cl_header)], body=body,
+                                 content_length='auto', trailing=trailing,
+                                 wsgi_input=W.FakeInput(body, limit=len(body), trailing=trailing))
+        else:
+            env = W.make_environ('POST', '/echo', headers=headers, body=body,
+                                 content_length=None if (not body and not with_cl) else len(body),
+                                 trailing=trailing, wsgi_input=flaky)
         CUR['input'] = env['wsgi.input']
         res = W.run_wsgi(ap['w'], env)
         if res.exc is not None:
@@ -646,7 +708,9 @@ def deserialize(stack, ct, body, history, propagate, chunks=None, with_cl=True, 
         if env['wsgi.input'].served_beyond:
             DIAG['beyond'] += 1                   # reading past Content-Length belongs to C07: diagnostic here
     else:
-        if with_cl:
+        if cl_header is not None:
+            headers = headers + [('Content-Length', cl_header)]
+        elif with_cl:
             headers = headers + [('Content-Length', str(len(body)))]
         res = A.run_asgi_http(ap['a'], A.make_scope('POST', '/echo', headers=headers),
                               events=chunk_events(body, chunks, style))
@@ -1182,6 +1246,9 @@ def phase_chunkings(rec, quick):
                 rec.seen('chunkings', (kind, tuple(comp), with_cl))
 
 
+RT_SEQ = [0]
+
+
 def roundtrip(rec, kind, doc, ct, rng, stacks_ser='wa', stacks_de='wa', tag='rt', pre=None):
     """resp.media = doc on each serializing stack; body sent back on each deserializing stack."""
     same = M.same_doc if kind == 'json' else M.same_form
@@ -1214,7 +1281,10 @@ def roundtrip(rec, kind, doc, ct, rng, stacks_ser='wa', stacks_de='wa', tag='rt'
         bodies[s] = (rct, body)
         # self-check of the trusted base: the reference reader must read falcon's body as the document
         if kind == 'json':
-            r = M.ref_json_parse(body)
+            try:
+                r = M.ref_json_parse(body.decode('utf-16').encode('utf-8') if rct == UTF16 else body)
+            except UnicodeDecodeError:
+                r = ('bad',)
             ok = r[0] == 'ok' and M.same_doc(wire_doc(kind, doc), r[1])
         else:
             r = M.ref_form_parse(body)
@@ -1227,6 +1297,15 @@ def roundtrip(rec, kind, doc, ct, rng, stacks_ser='wa', stacks_de='wa', tag='rt'
         for d in stacks_de:
             hist = gen_history(rng) if rng is not None else ['G', 'M']
             chunks, with_cl, style, trailing = None, True, 0, b''
+            if rng is None:
+                # deterministic variation of the framing: with / without Content-Length, one / several events
+                RT_SEQ[0] += 1
+                if d == 'a':
+                    with_cl = RT_SEQ[0] % 2 == 0
+                    chunks = [None, [len(body) // 2 + 1] * 2, None, [3] * -(-len(body) // 3) if len(body) < 200 else None
+                              ][RT_SEQ[0] // 2 % 4]
+                elif RT_SEQ[0] % 3 == 0:
+                    trailing = b']}&x=1'
             if rng is not None:
                 if d == 'a':
                     chunks, with_cl, style = gen_chunks(rng, len(body)), rng.random() < 0.5, rng.randrange(4)
@@ -1439,6 +1518,37 @@ def phase_handler_config(rec):
                     roundtrip(rec, 'form', f, FORM, None, tag='config', pre=idx % 6)
                     rec.count('config.form.' + cfg[2])
             rec.seen('handler_configs', cfg)
+        # custom sync-only handlers that rely on the content_length / content_type arguments
+        for cfg in lengthaware_cfgs():
+            set_cfg(cfg)
+            for doc in CONFIG_DOCS:
+                for ct in (None, JSON + '; charset=utf-8', VND, UTF16):
+                    if isinstance(doc, str) and len(doc) > 10000 and ct is not None:
+                        continue
+                    idx += 1
+                    if idx % rec.nshards != rec.shard:
+                        continue
+                    roundtrip(rec, 'json', doc, ct, None, tag='config-lengthaware', pre=idx % 6)
+                    rec.count('config.lengthaware.json')
+                    rec.count('config.types.' + cfg[3])
+            for body, hist in req_classes:
+                for stack in 'wa':
+                    for with_cl in (True, False):
+                        idx += 1
+                        if idx % rec.nshards != rec.shard:
+                            continue
+                        CUR_GEN['desc'] = 'open-arrays-1e5'
+                        run_request(rec, stack, 'json', JSON, 'designated', body, list(hist), idx % 2 == 0,
+                                    [len(body) // 3 + 1] * 3 if (stack == 'a' and body) else None, with_cl=with_cl,
+                                    tag='hostile:open-arrays-1e5' if len(body) > 4096 else 'config-lengthaware')
+                        rec.count('config.lengthaware.requests')
+            for f in corpus_forms():
+                idx += 1
+                if idx % rec.nshards != rec.shard:
+                    continue
+                roundtrip(rec, 'form', f, FORM, None, tag='config-lengthaware', pre=idx % 6)
+                rec.count('config.lengthaware.form')
+            rec.seen('handler_configs', cfg)
         # handlers whose overridden public deserialize()/deserialize_async() matter for the result
         for cfg in override_cfgs():
             set_cfg(cfg)
@@ -1543,6 +1653,66 @@ def phase_repeated_bodies(rec):
                         run_request(rec, stack, kind, ct, 'designated', body, ['G', 'M'], False,
                                     [7] * -(-len(body) // 7) if stack == 'a' else None, tag='repeated')
                         rec.count('phase.repeated_bodies')
+    finally:
+        set_cfg(None)
+
+
+CL_HEADERS = ['12abc', '-1', '-0', '', ' ', ' 5', '5 ', '+5', '5.0', '0x10', '1e1', '1_0', '٣', '5,5', '5, 5',
+              '00005', '0', '3', '999999999999999999999999999999', '9' * 5000, 'NaN', 'abc', '\x0c5']
+
+
+def run_consistent(rec, stack, ct, body, history, cl_header, chunks=None, tag='framing'):
+    """One request with an unusual Content-Length header. Nothing is demanded about the outcome of the single
+    attempt; only the statement's "at most once" clause: every later access returns the identical object or
+    re-raises the identical error instance, without touching the stream."""
+    fault = {'cl_header': cl_header}
+    wit = {'mode': 'consistent', 'cfg': CFG[0], 'stack': stack, 'ct': ct, 'body_hex': body.hex(),
+           'history': ''.join(history), 'cl_header': cl_header, 'chunks': chunks, 'tag': tag}
+    log, status, problems = deserialize(stack, ct, body, history, False, chunks, True, 0, b'', fault)
+    rec.count('mon.framing.' + stack)
+    if len(log) != len(history):
+        # the framework answered before the responder ran (it may reject the framing itself): nothing to judge
+        rec.count('framing.responder_not_reached')
+        rec.case(None)
+        return True
+    fired = []
+    model = M.MediaModel(('consistent',))
+    for i, (op, default, k, payload, touched) in enumerate(log):
+        rec.count('mon.history_step')
+        if i:
+            rec.count('mon.framing.repeat_call.' + ('value' if k == 'ret' else 'error'))
+        for label, complaint in model.step(op, default, k, payload, touched):
+            fired.append(label)
+            rec.violation(label, dict(wit, detail=complaint, log=describe(log), status=status))
+    rec.count('framing.first_' + ('value' if log[0][2] == 'ret' else type(log[0][3]).__name__))
+    scribble_log(rec, log)
+    rec.case(('framing', CFG[0], stack, ct, body, ''.join(history), cl_header, tuple(chunks or ())))
+    return not fired
+
+
+def phase_framing(rec, maxlen):
+    """Unusual Content-Length header values (malformed, signed, padded, huge, smaller than the body) x bodies x
+    all histories of 2..maxlen accesses x both stacks x stock/custom request types."""
+    bodies = [(JSON, b'{"k": [1, "\xc3\xa9"]}'), (None, b'[1]'), (FORM, b'a=1&a=2'), (JSON, b''), (VND, b'{"a"')]
+    idx = 0
+    try:
+        for cfg in (None, ('default', 'default', 'sub', 'sub', 'default')):
+            set_cfg(cfg)
+            for cl in CL_HEADERS:
+                try:
+                    cl.encode('latin-1')
+                except UnicodeEncodeError:
+                    continue
+                for ct, body in bodies:
+                    for L in range(2, maxlen + 1):
+                        for hist in itertools.product(CODES, repeat=L):
+                            for stack in 'wa':
+                                idx += 1
+                                if idx % rec.nshards != rec.shard:
+                                    continue
+                                run_consistent(rec, stack, ct, body, list(hist), cl,
+                                               [2] * -(-len(body) // 2) if (stack == 'a' and idx // 2 % 2 and body) else None)
+                                rec.count('phase.framing')
     finally:
         set_cfg(None)
 
@@ -1722,6 +1892,7 @@ def run(rec):
     phase_handler_config(rec)
     phase_form_options(rec)
     phase_repeated_bodies(rec)
+    phase_framing(rec, 2 if quick else 3)
     phase_interrupted(rec, quick)
     phase_histories(rec, 4 if quick else 5)
     phase_truncations(rec, quick)
@@ -1796,6 +1967,15 @@ def run(rec):
             rec.floor('formopt.' + name, 500)
             rec.floor('formopt.comma_in_later_value.' + name, 200)
     rec.floor('phase.repeated_bodies', 4000)
+    rec.floor('config.lengthaware.json', 60)
+    rec.floor('config.lengthaware.requests', 30)
+    rec.floor('config.lengthaware.form', 20)
+    rec.floor('phase.framing', 5000)
+    rec.floor('mon.framing.w', 2000)
+    rec.floor('mon.framing.a', 2000)
+    rec.floor('mon.framing.repeat_call.error', 1000)
+    rec.floor('mon.framing.repeat_call.value', 500)
+    rec.floor('framing.first_HTTPInvalidHeader', 500)
     rec.floor('mon.media_mutated_after_use', 20000)
     rec.floor('config.override.json', 80)
     rec.floor('config.override.form', 25)
@@ -1846,6 +2026,13 @@ def replay(rec, w):
             for op, default, k, payload, touched in log:
                 for label, complaint in model.step(op, default, k, payload, touched):
                     rec.violation('roundtrip-' + label, dict(wit, detail=complaint))
+        rec.case(('replay', 1))
+        rec.case(('replay', 2))
+        return
+    if wit.get('mode') == 'consistent':
+        ok = run_consistent(rec, wit['stack'], wit['ct'], bytes.fromhex(wit['body_hex']), list(wit['history']),
+                            wit['cl_header'], wit.get('chunks'), tag='replay')
+        print('replayed:', 'no monitor fired' if ok else 'monitor fired')
         rec.case(('replay', 1))
         rec.case(('replay', 2))
         return
